@@ -7,7 +7,7 @@
 //   P  the same for memory pools: instrumented raw-memory callbacks (region log) refused by index, and mapping calls (c18_pool.h)
 //   X  extreme-argument table, one row per process (c18_ext.h); --shard i --nshards n splits the table
 //   M  several threads on the default allocator and several pools at once, refusals arriving at random calls (c18_mt.h)
-//   I  N requests while the library cannot even initialise, then memory comes back (N >= 1024: known finding, own processes)
+//   I  N requests while the library cannot even initialise, then memory comes back (N >= 1024 used to exhaust the TLS keys)
 #define VRT_IMPL
 #define C18_DEFINE_INTERPOSERS
 #include "c18_common.h"
@@ -32,8 +32,8 @@ int main(int argc, char** argv) {
     else if (mode == "P") { PoolCfg c; c.budget = cases; c.thorough = thorough; c.cap = (int)a.num("cap", 300); c.subset_max = (int)a.num("subsets", thorough ? 10 : 8); run_pool_enum(P, c, top); }
     else if (mode == "X") { run_ext_table(P, (int)a.num("shard", 0), (int)a.num("nshards", 1), a.num("full", 1) != 0, a.str("only", "")); }
     else if (mode == "M") { MtCfg c; c.children = cases; c.rounds = (int)a.num("rounds", 12); c.threads_max = (int)a.num("threads", 6); run_mt(P, c, top); }
-    else if (mode == "I") {          // failed initialisations; --n N: exactly that many (the known defect needs >= 1024), else a strict ladder below the limit
-        std::vector<long> ns; if (a.has("n")) ns.push_back(a.num("n", 1100)); else { ns = { 1, 2, 7, 60, 400, 900 }; for (long i = 0; i < cases; i++) ns.push_back(1 + (long)top.below(1000)); }
+    else if (mode == "I") {          // failed initialisations; --n N: exactly that many, else a ladder around the TLS-key limit (1024) plus random counts
+        std::vector<long> ns; if (a.has("n")) ns.push_back(a.num("n", 1100)); else { ns = { 1, 2, 7, 60, 400, 1023, 1024, 1100, 2600 }; for (long i = 0; i < cases; i++) ns.push_back(1 + (long)top.below(3000)); }
         run_init_failures(P, ns);
     }
     else { fprintf(stderr, "unknown mode %s\n", mode.c_str()); return 2; }
